@@ -34,6 +34,7 @@ type Options struct {
 	Files      map[string]string // extra files written next to the spec (traces, records)
 	XssMB      int               // thread stack size
 	HeapGB     int               // -Xmx
+	JavaOpts   string            // extra JVM options appended to JAVA_TOOL_OPTIONS (e.g. "-XX:TieredStopAtLevel=1 -XX:ParallelGCThreads=2")
 	OnCase     func(raw []byte)  // called for each exported CASE record (JSON)
 	KeepOutput bool
 }
@@ -118,6 +119,9 @@ func Run(r *core.Run, o Options) (*Result, error) {
 	}
 	if o.DFS {
 		jopts += " -Dtlc2.tool.queue.IStateQueue=StateDeque"
+	}
+	if o.JavaOpts != "" {
+		jopts += " " + o.JavaOpts
 	}
 	args := []string{"-k", "10", fmt.Sprint(o.TimeoutSec), "tlc", "-metadir", filepath.Join(dir, "meta"),
 		"-workers", fmt.Sprint(o.Workers), "-config", o.Config, "-nowarning"}
